@@ -113,6 +113,25 @@ QROWS = [
     ({"type": "select_one c", "calculation": "'x'", "hint": "H"}, ("select1", {}), True),
     ({"type": "text", "calculation": "6 + 6", "trigger": "${first}", "hint": "H"}, ("input", {}), True),
     ({"type": "text", "calculation": "7 + 7", "trigger": "${first}"}, None, True),
+    # legacy spellings of the question types: the same control as the modern name
+    (_q("q picture"), ("upload", {"mediatype": "image/*"}), True),
+    (_q("q image"), ("upload", {"mediatype": "image/*"}), True),
+    (_q("q audio"), ("upload", {"mediatype": "audio/*"}), True),
+    (_q("q video"), ("upload", {"mediatype": "video/*"}), True),
+    (_q("add image prompt"), ("upload", {"mediatype": "image/*"}), True),
+    (_q("add photo prompt"), ("upload", {"mediatype": "image/*"}), True),
+    (_q("add audio prompt"), ("upload", {"mediatype": "audio/*"}), True),
+    (_q("add video prompt"), ("upload", {"mediatype": "video/*"}), True),
+    (_q("q location"), ("input", {}), True),
+    (_q("q geotrace"), ("input", {}), True),
+    (_q("q string"), ("input", {}), True),
+    (_q("q int"), ("input", {}), True),
+    (_q("add date prompt"), ("input", {}), True),
+    (_q("add note prompt"), ("input", {}), True),
+    (_q("q acknowledge"), ("trigger", {}), True),
+    (_q("add barcode prompt"), ("input", {}), True),
+    (_q("add select one prompt using c"), ("select1", {}), True),
+    (_q("add select multiple prompt using c"), ("select", {}), True),
 ]
 CONT = [
     ("g", {}), ("g", {"appearance": "field-list"}), ("r", {}), ("r", {"repeat_count": "1 + 1"}),
@@ -397,7 +416,7 @@ def ref_model(rows):
             nm = f"generated_note_name_{rownum}"
         p = top["path"] + "/" + nm
         if ctl is not None and (ctl[0] in ("select1", "select") or ctl[0].endswith("}rank") or ty.startswith("select_one_external")) and top["table"]:
-            lst = ty.split()[1] if len(ty.split()) > 1 else ""
+            lst = ty.split(" using ")[1].split()[0] if " using " in ty else (ty.split()[1] if len(ty.split()) > 1 else "")
             if "choice_filter" in row or (top["table"] is not True and top["table"] != lst):
                 raise ExpectedReject("table-list selects must share one list and cannot be filtered")
             if top["table"] is True:
